@@ -1,6 +1,8 @@
 #include <iostream>
 #include <cmath>
 #include <cstring>
+#include <cstdio>
+#include <unistd.h>
 
 #include "colvarmodule.h"
 #include "colvarscript.h"
@@ -184,8 +186,27 @@ int colvarproxy_verif::smp_biases_loop()
   return cvm::get_error();
 }
 
+// message sequence numbers survive a stop / resume of this walker (same process, new proxy)
+static std::map<std::string, long> g_seq;
+
 int colvarproxy_verif::replica_comm_recv(char *msg_data, int buf_len, int src_rep)
 {
+  if (!comm_dir.empty()) {
+    long const q = g_seq[comm_dir + "/r" + std::to_string(src_rep) + "_" + std::to_string(replica_id)]++;
+    std::string const path = comm_dir + "/m_" + std::to_string(src_rep) + "_" + std::to_string(replica_id) + "_" + std::to_string(q);
+    for (long waited = 0; waited < 120000; waited++) {      // up to two minutes
+      FILE *f = std::fopen(path.c_str(), "rb");
+      if (f) {
+        int n = (int) std::fread(msg_data, 1, buf_len, f);
+        std::fclose(f);
+        std::remove(path.c_str());
+        comm_received++;
+        return n;
+      }
+      usleep(1000);
+    }
+    return 0;
+  }
   if (!mailbox) return 0;
   std::string &m = (*mailbox)[replica_id][src_rep];
   int n = (int) m.size();
@@ -197,6 +218,18 @@ int colvarproxy_verif::replica_comm_recv(char *msg_data, int buf_len, int src_re
 
 int colvarproxy_verif::replica_comm_send(char *msg_data, int msg_len, int dest_rep)
 {
+  if (!comm_dir.empty()) {
+    long const q = g_seq[comm_dir + "/s" + std::to_string(replica_id) + "_" + std::to_string(dest_rep)]++;
+    std::string const path = comm_dir + "/m_" + std::to_string(replica_id) + "_" + std::to_string(dest_rep) + "_" + std::to_string(q);
+    std::string const tmp = path + ".tmp";
+    FILE *f = std::fopen(tmp.c_str(), "wb");
+    if (!f) return 0;
+    std::fwrite(msg_data, 1, msg_len, f);
+    std::fclose(f);
+    std::rename(tmp.c_str(), path.c_str());
+    comm_sent++;
+    return msg_len;
+  }
   if (!mailbox) return 0;
   (*mailbox)[dest_rep][replica_id].assign(msg_data, msg_len);
   return msg_len;
